@@ -46,8 +46,8 @@ type Val struct {
 	Elems []Val
 	Fn    *Closure
 	Lin   *Lin
-	DynT  types.Type // known dynamic type of an interface value
-	OT    types.Type // original named type of a converted constant (flag words)
+	DynT  types.Type     // known dynamic type of an interface value
+	OT    types.Type     // original named type of a converted constant (flag words)
 	OC    constant.Value // value before the conversion truncated it
 }
 
@@ -291,10 +291,10 @@ func (s *State) symAmong(id int, set []constant.Value) {
 
 // PathOut is the outcome of one path through a function (or loop body).
 type PathOut struct {
-	St   *State
-	Ret  []Val
-	Ctl  string // "return" | "next" (loop body fell through / continue) | "break" | "panic"
-	Pos  token.Pos
+	St    *State
+	Ret   []Val
+	Ctl   string // "return" | "next" (loop body fell through / continue) | "break" | "panic"
+	Pos   token.Pos
 	IsErr int // for functions with an error result: 1 error, 0 success, -1 unknown
 }
 
@@ -327,17 +327,17 @@ type Interp struct {
 	objN      int
 	Undecided []string // constructs the interpreter could not model in a function that matters
 	// statistics for coverage rules
-	FieldReads  map[*types.Var]bool
-	FieldStores map[*types.Var]bool
-	NoInline    func(f *types.Func) bool
-	pureGetter  map[*types.Func]int
-	purePred    map[*types.Func]bool
+	FieldReads   map[*types.Var]bool
+	FieldStores  map[*types.Var]bool
+	NoInline     func(f *types.Func) bool
+	pureGetter   map[*types.Func]int
+	purePred     map[*types.Func]bool
 	getterMarked map[*types.Func]bool
-	Trace       bool
-	Entry       string
-	loopForms   []*LoopForm
-	BitMode     bool           // track integers used in bit operations as provenance vectors
-	symNames    map[int]string // names of symbols (reader inputs) in bit vectors
+	Trace        bool
+	Entry        string
+	loopForms    []*LoopForm
+	BitMode      bool           // track integers used in bit operations as provenance vectors
+	symNames     map[int]string // names of symbols (reader inputs) in bit vectors
 }
 
 // Form is a byte-size expression: constant + symbolic terms + per-iteration sums of loops.
